@@ -293,6 +293,11 @@ def finding_key(t, outcome):
 
 
 def describe(t, outcome):
+    if t.get('kind') == 'history':
+        return (f"{'Baseline2D' if t['dim'] == '2d' else 'Baseline'}.{t['method']} with the invalid input [{t['vclass']}] on an "
+                f"object with the history {t['param']} ({t.get('history')}): "
+                + ('outcome differs from the same call on a fresh object' if outcome == 'differs'
+                   else ('returned a baseline silently' if outcome == 'returned' else f'raised {outcome}')))
     val = t.get('value', t.get('vclass'))
     comp = f" together with the valid optional argument [{t['comp']}]" if t.get('comp') else ''
     return (f"{'Baseline2D' if t['dim'] == '2d' else 'Baseline'}.{t['method']} with exactly one invalid argument{comp} "
